@@ -28,18 +28,24 @@ def cq(x):
 # operator expressions (surface syntax = overload set)
 # ---------------------------------------------------------------------------
 class Sc:
-    """scalar inside an expression: kind 'F' (the spline's scalar type) or 'I' (int)"""
+    """scalar inside an expression: kind 'F' (the spline's scalar type) or an integer of C++ type int ('I'),
+    unsigned ('U'), size_t ('Z'), long ('L') or short ('H'); the model sees every integer kind as ScI"""
+    INT_KINDS = {'I': None, 'U': "{}u", 'Z': "static_cast<size_t>({})", 'L': "{}L", 'H': "static_cast<short>({})"}
 
     def __init__(self, kind, val):
         self.kind = kind
         self.val = Fraction(val) if kind == 'F' else int(val)
+        assert kind == 'F' or kind in self.INT_KINDS
+        assert kind not in ('U', 'Z') or self.val >= 0
 
     def text(self):
-        return f"F {fr(self.val)}" if self.kind == 'F' else f"I {self.val}"
+        return f"F {fr(self.val)}" if self.kind == 'F' else f"{self.kind} {self.val}"
 
     def cpp(self):
         if self.kind == 'F':
             return cq(self.val)
+        if self.kind != 'I':
+            return "(" + self.INT_KINDS[self.kind].format(self.val) + ")"
         return f"({self.val})" if self.val < 0 else str(self.val)
 
     def is_zero(self):
@@ -377,10 +383,16 @@ class Case:
             for s in ss:
                 assert self.order(s) == order
         self._decl(d, ('spl', order))
+        # the operands are handed over in a NON-const vector and written back to their slots afterwards (also when the
+        # call throws), so that a call that modifies or moves from its operands is visible in the slots; odd d + len:
+        # iterator overload with non-const iterators, else the collection overload
+        call = "bspline::linearCombination(cv.begin(), cv.end(), sv.begin(), sv.end())" if (d + len(ss)) % 2 else "bspline::linearCombination(cv, sv)"
+        wb = " ".join(f"req(s{s}) = sv[{k}];" for k, s in enumerate(ss))
         self._emit(f"SplLinComb {d} {len(cs)} {' '.join(fr(c) for c in cs)} {len(ss)} {' '.join(str(s) for s in ss)}".replace("  ", " ").rstrip(),
                    f"std::vector<S> cv{{{', '.join(cq(c) for c in cs)}}}; std::vector<Spline<S, {order}>> sv; "
                    + " ".join(f"sv.push_back(req(s{s}));" for s in ss)
-                   + f" auto r = bspline::linearCombination(cv, sv); {self._set(d, 'std::move(r)')} out.tag(\"VOID\");")
+                   + f" auto wb = [&] {{ {wb} }}; std::optional<Spline<S, {order}>> r; "
+                   + f"try {{ r.emplace({call}); }} catch (...) {{ wb(); throw; }} wb(); {self._set(d, 'std::move(*r)')} out.tag(\"VOID\");")
 
     def spl_eval(self, a, x):
         self._emit(f"SplEval {a} {fr(x)}", f"out.f(req(s{a})({cq(x)}));")
@@ -563,7 +575,7 @@ class _Toks:
 
 def parse_scalar(tk):
     k = tk.next()
-    return Sc('F', tk.fr()) if k == 'F' else Sc('I', tk.int())
+    return Sc('F', tk.fr()) if k == 'F' else Sc(k, tk.int())
 
 
 def parse_expr(tk):
